@@ -117,6 +117,8 @@ class Sched:
         t = self.me()
         if t is None or self.current is not t:
             return
+        if t.kill:
+            return          # being unwound at the end of a run (e.g. a lock released by a `with` block on the way out): never park again
         t.pending = (kind, data)
         t.cond = cond
         t.state = 'parked'
